@@ -128,7 +128,8 @@ def jobs(tier, seed):
             ("A-D4", ["determinize"], [0, 1]),
             ("A-ISO", ["push", "trim", "trim_vals", "determinize", "min_det"], [])]
     if not quick:
-        plan += [("A-D4", ["min_det", "push"], [0, 1]), ("A-CYC", ["determinize", "push", "trim", "trim_vals"], [0]), ("A-DAG", ["determinize"], [0, 1, 2, 3]), ("A-DAG2", ["min_det"], [0, 1, 2]), ("A-S1", ["push", "trim", "trim_vals"], []), ("A-EPS2", ["push", "trim", "trim_vals"], [0])]
+        # min_det on A-D4 (two nested determinisations over frozendict states with symbolic residuals) does not finish: not run
+        plan += [("A-D4", ["push", "trim", "trim_vals"], [0, 1]), ("A-CYC", ["determinize", "push", "trim", "trim_vals"], [0]), ("A-DAG", ["determinize"], [0, 1, 2, 3]), ("A-DAG2", ["min_det"], [0, 1, 2]), ("A-S1", ["push", "trim", "trim_vals"], []), ("A-EPS2", ["push", "trim", "trim_vals"], [0])]
     for sh, ops_, bits in plan:
         sk = automaton(sh)
         alw = list(range(len(sk.arcs), sk.K))  # initial/final weights always present; arc weights free
@@ -162,6 +163,6 @@ INFO = dict(
     design_ref="DESIGN.md section 3 C13",
     explanation="Real determinize/min_det/push/trim on symbolic weights; result evaluated by the path-sum oracle; z3 proves language equality and structural facts.",
     bounds=dict(quick=dict(skeletons=["A-DAG2", "A-DAG", "A-DEAD", "A-D3"]), thorough=dict(skeletons=6)),
-    outside=["cyclic machines for determinize/min_det", "more than 6 symbolic weights", "IEEE rounding"],
+    outside=["cyclic machines for determinize/min_det except A-CYC", "min_det on A-D4 (does not finish)", "more than 6 symbolic weights", "IEEE rounding"],
     assumptions=["weights >= 0"],
 )
